@@ -65,6 +65,20 @@ func loadShapes(c *Ctx, prop string, large bool) ([]run.Job, error) {
 			jobs = append(jobs, j)
 		}
 	}
+	// histories of two calls: an earlier SetNoNewPrivs / LoadFilter / Supported in the same process
+	hshapes := []int{0}
+	if c.Tier == "thorough" {
+		hshapes = []int{0, 3 * stride, 7 * stride}
+	}
+	for _, hi := range hshapes {
+		s := shapes[(hi+int(c.Seed))%len(shapes)]
+		for prior := 1; prior <= 3; prior++ {
+			p := s.Params("x86_64", 0, names, false)
+			p["props"] = prop
+			p["prior"] = prior
+			jobs = append(jobs, run.Job{ID: fmt.Sprintf("load-after/%s/%d:%s", []string{"", "SetNoNewPrivs", "LoadFilter", "Supported"}[prior], hi, s.String()), Pkg: run.Module, Harness: "H_Load", Params: p, Weight: 20})
+		}
+	}
 	jobs = append(jobs, run.Job{ID: "supported", Pkg: run.Module, Harness: "H_Supported", Params: map[string]interface{}{}})
 	return jobs, nil
 }
@@ -72,6 +86,7 @@ func loadShapes(c *Ctx, prop string, large bool) ([]run.Job, error) {
 var loadStubs = []string{
 	"syscall.Syscall / Syscall6 -> vstubSyscall*: returns arbitrary (r1, errno) under Go's Syscall contract (errno != 0 => r1 == ^0; errno == 0 => r1 not in [-4095,-1]); records trap, arguments, thread id, lock epoch; dereferences the sock_fprog pointer like the kernel",
 	"kernel contract assumed from seccomp(2)/prctl(2): filter attached iff seccomp(SET_MODE_FILTER) returns 0 with errno 0; positive return only with TSYNC; caller without no_new_privs and without CAP_SYS_ADMIN gets EACCES; prctl(38,1,0,0,0) == 0 sets the calling thread's bit",
+	"histories: one earlier call of SetNoNewPrivs, LoadFilter (own arguments and kernel answers) or Supported in the same process, on an arbitrary thread; kernel state carries over (which thread has no_new_privs; a successful thread-synchronising attach gives it to every thread; a thread other than the one that set it earlier may have inherited it or not)",
 	"scheduling: the thread id of each syscall is arbitrary unless the goroutine has been locked to its thread (runtime.LockOSThread, redirected to a counter) since the previous syscall",
 	"fmt.Errorf -> opaque non-nil error",
 }
